@@ -56,7 +56,14 @@ BUILTIN_MODULE = {
 GEN_LIBS = ["lib", "lib_extra", "libx", "lib.sub", "lib_sub", "libxsub", "other", "li", "pk", "pk.inner", "pk.inner.deep"]
 # these packages define their commands in their own __init__ module: asking for one of their sub-packages does not ask for them
 INIT_LIBS = ("pk", "pk.inner")
+# the module (inside the package) that holds a library's commands: any module of a requested package counts, whatever it is called
+MODULE_OF = {"libx": "_cmds", "other": "_impl_v2", "lib_sub": "__main__", "pk.inner.deep": "_"}
 CMD_NAMES = ["Foo", "Bar", "Baz", "Qux"]
+
+
+def module_name(lib):
+    return lib if lib in INIT_LIBS else lib + "." + MODULE_OF.get(lib, "cmds")
+
 ELSEWHERE = ["elsewhere", "lib_other", "libz", "l", "tests_helpers", "mpilot.libraries.eems.basic_extra"]
 
 
@@ -72,7 +79,7 @@ def write_libs(root, libs):
                 open(init, "w").close()
         # a library whose name is written with a leading "@" in the case keeps its commands in the package's own
         # __init__ module instead of a sub-module (the key used everywhere else is the plain name)
-        with open(os.path.join(d, "__init__.py" if lib in INIT_LIBS else "cmds.py"), "w") as f:
+        with open(os.path.join(d, "__init__.py" if lib in INIT_LIBS else MODULE_OF.get(lib, "cmds") + ".py"), "w") as f:
             f.write("from mpilot.commands import Command\nfrom mpilot import params\n\n")
             for k, n in enumerate(names):
                 # every second command is registered under an explicit `name` that differs from its class name
@@ -85,7 +92,7 @@ def module_commands(libs):
     """module name -> command names, for generated and built-in libraries."""
     out = {}
     for lib, names in libs.items():
-        out[lib if lib in INIT_LIBS else lib + ".cmds"] = list(names)
+        out[module_name(lib)] = list(names)
     for lib, names in BUILTIN.items():
         out[BUILTIN_MODULE[lib]] = list(names)
     return out
@@ -190,7 +197,7 @@ class Runner(object):
             earlier.append("define:" + module)
             return []
         if op == "import":
-            importlib.import_module(step[1] if step[1] in INIT_LIBS else step[1] + ".cmds")
+            importlib.import_module(module_name(step[1]))
             earlier.append("import:" + step[1])
             return []
         requested = step[1]  # may be empty: a program that asks for no library has no commands at all
